@@ -103,10 +103,13 @@ def describe(run, upto, inv):
         if r["ev"] in OPS and not r["ok"]:
             failed.append(OPS[r["ev"]])
     missing = set(run[0]["all"]) - sink
-    harmful = [f for f in failed if f not in ("list", "commit")]  # a failed list / commit cannot by itself skip a record
-    if run[0]["store"] == "noop" and missing == {0} and not harmful:
+    if run[0]["store"] == "noop" and missing == {0}:
         return "placeholder-store-skips-offset-0"
-    return "record-skipped-after-failed-%s" % (harmful[0] if harmful else "none")
+    # the failure that hit the segment holding the first record that was skipped
+    segs = run[0].get("segs") or SEGS
+    seg = next((i + 1 for i, offs in enumerate(segs) if missing and min(missing) in offs), 0)
+    hit = [OPS[r["ev"]] for r in run[:upto + 1] if r["ev"] in OPS and not r["ok"] and r.get("seg") == seg and r["ev"] not in ("List", "Commit")]
+    return "record-skipped-after-failed-%s" % (hit[-1] if hit else "none")
 
 
 def build_schedules(ctx, d):
